@@ -33,7 +33,7 @@ import (
 
 type C18Plan struct {
 	Seed   uint64 `json:"seed"`
-	Kind   string `json:"kind"` // model | protocol
+	Kind   string `json:"kind"` // model | protocol | concurrent
 	Ops    int    `json:"ops"`
 	Tokens int    `json:"tokens"`
 	Key    string `json:"key,omitempty"`
@@ -49,7 +49,7 @@ func (p *c18) ID() string    { return "C18" }
 func (p *c18) Level() string { return "exploration" }
 func (p *c18) NewPlan() any  { return &C18Plan{} }
 func (p *c18) Rule() string {
-	return "(a) model plans: a seeded history of 40-400 operations over 2-6 tokens drawn from every method of the token service and the DI/TO0/TO1/TO2 session, rendezvous-blob, voucher and key interfaces, with values of every shape (each key-exchange session type at each stage, empty/large rendezvous info, devmod with and without optional fields, both HMAC sizes, vouchers with 0-2 entries), token variants (valid, invalidated, damaged, truncated, foreign, empty, non-base64), clock jumps around blob expiry and restart (kill without close / clean reopen) as operations, executed against the real sqlite.DB and a map-based reference model and compared operation by operation; (b) protocol plans: DI, TO0, TO1, TO2 (and resale + TO2) on sqlite nodes with the target node rebuilt from its database file before every request; non-trivial = the history contained a restart, an invalid-token access or a clock jump; distinct = distinct (history, outcome, log hash)"
+	return "(a) model plans: a seeded history of 40-400 operations over 2-6 tokens drawn from every method of the token service and the DI/TO0/TO1/TO2 session, rendezvous-blob, voucher and key interfaces, with values of every shape (each key-exchange session type at each stage, empty/large rendezvous info, devmod with and without optional fields, both HMAC sizes, vouchers with 0-2 entries), token variants (valid, invalidated, damaged, truncated, foreign, empty, non-base64), clock jumps around blob expiry and restart (kill without close / clean reopen) as operations, executed against the real sqlite.DB and a map-based reference model and compared operation by operation; (b) protocol plans: DI, TO0, TO1, TO2 (and resale + TO2) on sqlite nodes with the target node rebuilt from its database file before every request; (c) concurrent plans: 2-6 sessions as tasks of the seeded scheduler on one fresh database, every SQL statement a scheduling point (statement-log seam), each session checked against its own sequential model; non-trivial = the history contained a restart, an invalid-token access or a clock jump; distinct = distinct (history, outcome, log hash)"
 }
 func (p *c18) Exhaustive(string) bool { return false }
 func (p *c18) Components() map[string][]string {
@@ -75,6 +75,9 @@ func (p *c18) NumPlans(tier string) int {
 
 func (p *c18) Plan(tier string, seed uint64, i int) any {
 	r := mrand.New(mrand.NewPCG(seed*53+1, uint64(i)))
+	if i%7 == 3 {
+		return &C18Plan{Seed: seed*1_000_003 + uint64(i), Kind: "concurrent", Ops: 3 + r.IntN(12), Tokens: 2 + r.IntN(5)}
+	}
 	if i%7 == 6 {
 		f := c01SweepFams[(i/7)%len(c01SweepFams)]
 		return &C18Plan{Seed: seed*1_000_003 + uint64(i), Kind: "protocol", Key: f.Key, Enc: f.Enc, Mode: []string{"kill", "clean", "alternate"}[(i/21)%3]}
@@ -102,6 +105,10 @@ func (p *c18) Exec(env *Env, plan any) {
 	pl := plan.(*C18Plan)
 	if pl.Kind == "protocol" {
 		c18Protocol(env, pl)
+		return
+	}
+	if pl.Kind == "concurrent" {
+		c18Concurrent(env, pl)
 		return
 	}
 	c18Model(env, pl)
